@@ -277,6 +277,7 @@ class Ctx:
             else:
                 hits.setdefault(k['id'], [k, 0, f])
                 hits[k['id']][1] += 1
+        new.sort(key=lambda f: len(_canon(f['args'])))        # smallest failing input first
         # a broken obligation may be explained by a known finding (explicit link)
         unexplained = []
         for name, detail in self.broken:
